@@ -261,6 +261,12 @@ func (eng *Engine) Verify(fn *ssa.Function, spec *FuncSpec, tags map[string]bool
 				continue
 				panic(fmt.Sprintf("%s:%d: call-site clause for %q never applied: no such call in %s (contract out of date?)", c.File, c.Line, c.Callee, res.Func))
 			}
+			if c.Kind == KExhaustive && !e.clauseHit[c] && e.wantClause(c) {
+				e.obls = append(e.obls, &Obligation{Name: res.Func + "#" + c.Label + ".loop-missing", Func: res.Func, Kind: "structural", Label: c.Label, Tags: c.Tags,
+					Pos: fmt.Sprintf("%s:%d", c.File, c.Line), Structural: true, StructOK: false, Guard: "true",
+					Goal:      fmt.Sprintf("loop %d exists in %s (the clause constrains it)", c.Loop, res.Func),
+					StructMsg: fmt.Sprintf("%s has no loop %d any more: the iteration this clause constrains was removed", res.Func, c.Loop)})
+			}
 			if c.Kind == KAssertCall && !e.clauseHit[c] && e.wantClause(c) {
 				if strings.HasSuffix(strings.TrimSpace(c.Text), ":: false") {
 					continue // a prohibition ("no such call may exist here"): satisfied when there is none
